@@ -67,6 +67,13 @@ def check_C14(ctx):
         cs.eval(t_, o_, fam_)
     for (t_, o_, fam_, *_m) in scale.nonascii_prefix(ctx):
         cs.eval(t_, o_, fam_)
+    # reserved words as attribute names on objects that have such keys; operators of other languages inside literals; literals ending in
+    # an escaped backslash next to parentheses; a Stringer that evaluates rules itself (a lock around caller code would never return)
+    for (t_, o_, fam_, *_m) in scale.keyword_keys(ctx) + scale.operator_literals(ctx) + scale.escape_tails(ctx)[::3]:
+        cs.eval(t_, o_, fam_)
+    for t_ in ['x eq "abc"', 'x co "b" and k eq 1', 'k eq 1 and n.x sw "a"', 'x in ["abc", "q"]', 'x eq 1.0.0', 'x gt 1']:
+        for a_ in (('strreent', b'abc'), ('strreent', b'1.0.0')):
+            cs.eval(t_, obj({'x': a_, 'k': I(1), 'n': {'x': a_}}), 're-entrant-stringer')
     for t_ in [b'x eq "caf\xe9"', b'x eq "\xff"', b'x co "\xc3"', b'x eq "a\xe9b" or y eq 1', b'x in ["\xe9", "b"]', b'x eq "\xed\xa0\x80"', b'x eq "\xc3\xa9"', b'x\xe9 eq 1', b'x eq 1 \xe9']:
         for o_ in (obj({'x': S(b'caf\xe9'), 'y': I(1)}), obj({'x': S(b'\xff')}), obj({'x': S('caf\ufffd')}), obj({'x': S('é')})):
             cs.eval(t_, o_, 'invalid-utf8-literal')
@@ -294,6 +301,8 @@ def check_C04(ctx):
     lits = [('string', s) for s in STR_LITS]
     nonstr = [ABSENT, ('nil',), ('b', True), I(1), F(1.5), ('m', []), ('o', 1), ('o', 8), ('o', 13), ('o', 17)]
     fam_leaf_exh(cs, ctx.rng, ops=STR_OPS, literals=lits, attrs=STR_ATTRS + STRINGER_ATTRS + nonstr, fam='str-pool')
+    # every other Go type the driver can build (values whose String is on the pointer type, parsed versions, typed nils, ...): never a string
+    fam_leaf_exh(cs, ctx.rng, ops=STR_OPS, literals=[('string', x) for x in ('abc', '1.0.0', '', '{abc}', '[a b]', 'map[]', '<nil>')], attrs=OTHER_TYPED, fam='str-other-typed')
     for _ in range(ctx.n(2500, 90000)):
         lit = rand_str(ctx.rng, 4)
         r = ctx.rng.random()
@@ -388,6 +397,7 @@ def check_C09(ctx):
     lits = [('version', v) for v in VER_LITS]
     other = [ABSENT, ('nil',), ('b', True), I(1), F(1.0), ('m', []), ('o', 17), ('str', b'1.0.0'), ('strptr', b'1.0.0'), ('strpanic',), ('o', 8)]
     fam_leaf_exh(cs, ctx.rng, ops=REL, literals=lits, attrs=VER_ATTRS + other, fam='ver-pool')
+    fam_leaf_exh(cs, ctx.rng, ops=REL, literals=[('version', x) for x in ('1.0.0', '1.0.1', '0.9.0')], attrs=OTHER_TYPED + [('strver', b'1.0.0'), ('strverptr', b'1.0.0'), ('strver', b'1.0.1'), ('strver', b'0.9.0')], fam='ver-other-typed')
     for _ in range(ctx.n(2500, 80000)):
         lit = '.'.join(str(ctx.rng.choice([0, 1, 2, 9, 10, 11, 99, 100, 2**64 - 1, 2**64])) for _ in range(3))
         r = ctx.rng.random()
@@ -627,7 +637,7 @@ def check_C16(ctx):
     cyc = CaseSet()
     for k_ in range(6):
         cyc.simple('cyclic', str(k_), 'cyclic-object', scenario=k_)
-    cres = ctx.run(cyc, label='cyc', nshards=len(cyc.cases), sides=('impl',), timeout=300)
+    cres = ctx.run(cyc, label='cyc', nshards=len(cyc.cases), sides=('impl',), timeout=300, own_crash_handling=True)
     for c in cyc.cases:
         io = cres.impl.get(c.id)
         if io is None:
@@ -675,8 +685,8 @@ def check_C18(ctx):
                    [S(x) for x in ['', 'abc', 'ABC', 'aBc', 'ab', 'b', 'a', ' ', 'abd', 'B', '\u017f', 's', '\u03c2', '\u03a3', '\u03c3',
                                    '\u212a', 'K', '\u0130', 'I', '\u00b5', '\u039c', 'stra\u017f\u017fe', '\u00df', '\u1e9e',
                                    '1.9.0', '1.10.0', '1.0.0-rc1', '1.0.0+a', '2024-01-01T00:00:00.2Z', '2024-01-01T00:00:00.7', '2024-01-01T00:00:00Z', '9', '10']] + [('str', b'abc'), ABSENT, I(1), ('nil',), ('o', 8)]),
-        'version': (['0.0.0', '1.0.0', '1.0.1', '1.9.0', '1.10.0', '2.0.0', '10.2.33', '18446744073709551615.0.0'],
-                    VER_ATTRS + [ABSENT, I(1), ('str', b'1.0.0'), ('nil',)]),
+        'version': (['0.0.0', '1.0.0', '1.0.1', '1.9.0', '1.10.0', '2.0.0', '10.2.33', '18446744073709551615.0.0', '18446744073709551616.0.0', '1.0.18446744073709551616'],
+                    VER_ATTRS + [ABSENT, I(1), ('str', b'1.0.0'), ('nil',), S('1.0.18446744073709551616'), ('o', 38), ('strver', b'1.0.0'), ('strverptr', b'1.0.0'), ('strver', b'1.0.1'), ('o', 8)]),
     }
     vectors = []   # (kind, attr, literal, {op: rule-case}, {op: call-case})
     for kind, (lits, attrs) in pools.items():
@@ -730,6 +740,14 @@ def check_C18(ctx):
             if is_nan(a):
                 continue
             cl = [cases[op] for op in REL]
+            # comparability by Go type alone (no parsing needed to judge it): a version literal compares with strings only, a number
+            # literal with int / int32 / int64 / float64 only, a string literal never with numbers, booleans, nil, maps or a missing attribute
+            tk = a[0]
+            by_type_incomparable = (kind == 'version' and tk != 's') or (kind in ('long', 'double') and tk not in ('i', 'i32', 'i64', 'f')) or \
+                                   (kind in ('string', 'string-long') and tk in ('i', 'i32', 'i64', 'f', 'b', 'nil', 'absent', 'm', 'nilmap'))
+            if by_type_incomparable and any(v.values()):
+                ctx.violation('%s: the attribute (%s) is not comparable with a %s literal, yet not all six operators are false: %s' % (src, val_desc(a) if a != ABSENT else 'absent', kind, v), cl)
+                continue
             if any(v.values()):
                 if [v['LT'], v['EQ'], v['GT']].count(True) != 1:
                     ctx.violation('%s: not exactly one of lt/eq/gt holds: %s' % (src, v), cl)
@@ -877,7 +895,7 @@ def check_C01(ctx):
         groups.append((c, q_, None, None, {k.decode(): True for k, _ in o_[1]}))
     # non-ASCII text early in the rule, nil / empty object (harness/scale.py): compound vs its comparisons evaluated alone
     struct_groups = []
-    for (t_, o_, fam_, m_) in scale.nonascii_prefix(ctx) + scale.nil_object(ctx):
+    for (t_, o_, fam_, m_) in scale.nonascii_prefix(ctx) + scale.nil_object(ctx) + scale.path_reuse(ctx) + scale.escape_tails(ctx):
         c_ = cs.eval(t_, o_, fam_)
         if m_ and len(m_[0]) > 0:
             struct_groups.append((c_, m_[1], [cs.eval(ct_, o_, fam_ + '-alone') for ct_ in m_[0]]))
@@ -922,7 +940,7 @@ def check_C01(ctx):
         deep.simple('deepnest', str(n), 'deep-nesting-child', depth=n, form='(((')
     for n in (100000, 3000000):
         deep.simple('deepnest', '%d not' % n, 'deep-nesting-child', depth=n, form='not (not (not (')
-    dres = ctx.run(deep, label='deep', nshards=len(deep.cases), sides=('impl',), timeout=600)
+    dres = ctx.run(deep, label='deep', nshards=len(deep.cases), sides=('impl',), timeout=600, own_crash_handling=True)
     for c in deep.cases:
         io = dres.impl.get(c.id)
         if io is None:
@@ -995,7 +1013,7 @@ def check_C02(ctx):
         cs.eval(t, odd, 'odd-keys')
     # size and shape beyond small random rules (harness/scale.py)
     deep_groups = []
-    for (t_, o_, fam_, m_) in scale.deep_paths(ctx):
+    for (t_, o_, fam_, m_) in scale.deep_paths(ctx) + scale.path_reuse(ctx)[::2]:
         c_ = cs.eval(t_, o_, fam_)
         if m_:
             deep_groups.append((c_, m_[1], [cs.eval(ct_, o_, 'deep-path-alone') for ct_ in m_[0]]))
@@ -1134,6 +1152,9 @@ def check_C17(ctx):
             laws_ = law_pairs(A_, 'k eq 1', 'k eq 2')[:7]
             for name, lhs, rhs, cond in (laws_ if d_ < 2000 else [laws_[0], laws_[1], laws_[5]]):
                 inst.append((name, cs.eval(lhs, objs[0], 'law-nesting'), cs.eval(rhs, objs[0], 'law-nesting'), cond, None, None))
+    # sibling operands that differ only inside a literal; neighbouring paths with a shared text prefix (harness/scale.py)
+    for (A_, B_, C_, o_, fam_) in scale.law_operands(ctx):
+        add(A_, B_, C_, o_, fam_)
     for depth in (9, 17, 33):
         A = 't pr'
         for _ in range(depth):
@@ -1230,6 +1251,8 @@ def check_C05(ctx):
         cs.eval(t_, o_, fam_)
     for t_ in scale.long_tokens(ctx):
         cs.eval(t_, obj({'x': I(1)}), 'long-token')
+    for (t_, o_, fam_, *_m) in scale.keyword_keys(ctx) + scale.operator_literals(ctx)[::2] + scale.escape_tails(ctx)[::5]:
+        cs.eval(t_, o_, fam_)
     # an evaluator of a malformed text stays rejecting: after Reset, after other evaluators were created, on every call
     bad_texts = [t for t in FIXED_TEXTS if isinstance(t, str)][:120]
     hist_cases, il_cases = [], []
@@ -1327,7 +1350,7 @@ def check_C20(ctx):
 
 # ----------------------------------------------------------------------------
 HOSTILE_STRINGS = [S(b'\x80' * 100), S(b'\xbf' * 65), S(b'\xff' * 70), S('\u00e9' * 40), S('a' * 63 + '\u00e9' + 'b' * 10), S('x' * 300), S(b'a' * 64 + b'\xc3'), S(b'\xe3\x81' * 40), S('\U0001f600' * 20), S(b'\x00' * 70)]
-HOSTILE = HOSTILE_STRINGS + [('strpanic',), ('strnilptr',), ('strselfpanic',), ('nilmap',), ('nil',), F(float('nan')), F(float('inf')), F(float('-inf'))] + [('o', t) for t in list(range(21)) + [22, 23, 24, 25, 26, 27, 29, 30, 31, 32, 33, 34, 35, 36, 37]] + \
+HOSTILE = HOSTILE_STRINGS + [('strpanic',), ('strnilptr',), ('strselfpanic',), ('nilmap',), ('nil',), F(float('nan')), F(float('inf')), F(float('-inf'))] + [('o', t) for t in list(range(21)) + [22, 23, 24, 25, 26, 27, 29, 30, 31, 32, 33, 34, 35, 36, 37, 38, 39, 40, 41, 42, 43]] + \
           [('str', b'abc'), ('strptr', b'1.0.0'), ('m', [(b'y', ('strpanic',))]), ('m', [(b'y', ('o', 3))])]
 
 def check_C07(ctx):
@@ -1359,10 +1382,6 @@ def check_C07(ctx):
     res = ctx.run(cs, nshards=ctx.n(16, 32))
     ctx.compare([c for c in cs.cases if c.kind != 'hist'], res, ['verdict', 'err'])
     ctx.compare([c for c in cs.cases if c.kind == 'hist'], res, ['out'])
-    for cr in ctx.crashes:
-        if cr[0] == 'impl':
-            c = cs.by_id.get(cr[4])
-            ctx.violation('the driver process died (rc %s) while running this case: %s' % (cr[2], cr[3][-400:]), [c] if c else [])
     for c in cs.cases:
         io = res.impl.get(c.id)
         if not io:
@@ -1460,6 +1479,39 @@ def check_C11(ctx):
         ce_ = cs.eval(text, common, 'hist-fresh')
         fresh = [(ce_ if o[1] is common else cs.eval(text, o[1], 'hist-fresh')) if o[0] in ('p', 'q') else None for o in ops]
         hs.append((h, ops, fresh))
+    # rule texts with blanks / line ends around them, Reset in between (whatever is kept for later calls is the trimmed sentence)
+    for base_ in ['x eq 1', 'x eq 1 or y.z pr', 'name co "a b"', 'x in [1, 2]', 'x eq', 'not (x gt 0)']:
+        for pad_ in [(' ', ''), ('', ' '), ('', '\n'), ('\r\n', '\r\n'), ('\t', '\t '), ('  ', '  '), ('\n\n', ''), ('', '\r')]:
+            text_ = pad_[0] + base_ + pad_[1]
+            oa_, ob_ = obj({'x': I(1), 'name': S('xa bx')}), obj({'x': I(0), 'y': {'z': I(1)}})
+            for ops in ([('p', oa_), ('r',), ('p', oa_), ('d',), ('p', ob_), ('r',), ('r',), ('p', ob_), ('p', oa_), ('d',)], [('r',), ('p', oa_), ('d',)], [('p', ob_), ('p', oa_), ('r',), ('d',), ('p', oa_)]):
+                h = cs.hist(text_, ops, 'hist-padded-text')
+                fresh = [cs.eval(text_, o[1], 'hist-fresh') if o[0] in ('p', 'q') else None for o in ops]
+                hs.append((h, ops, fresh))
+    # a comparison that is reached in call k and not again until call k+g, g around 256 / 512 / 65536 (per-call stamps that wrap)
+    for text_, skip_, reach_ in [('first eq 1 or a.b eq 1', obj({'first': I(1), 'a': {'b': I(2)}}), lambda v: obj({'first': I(0), 'a': {'b': I(v)}})),
+                                 ('first eq 1 and a.b eq 1', obj({'first': I(0), 'a': {'b': I(1)}}), lambda v: obj({'first': I(1), 'a': {'b': I(v)}})),
+                                 ('first pr or (n.s co "x" and n.k in [1, 2])', obj({'first': I(1)}), lambda v: obj({'n': {'s': S('x' if v == 1 else 'y'), 'k': I(v)}}))]:
+        r1_, r2_ = reach_(1), reach_(2)
+        gaps_ = [254, 255, 256, 257, 510, 511, 512, 513] + ([] if ctx.quick else [1023, 1024, 65534, 65535, 65536, 65537])
+        for g in gaps_:
+            ops = [('p', r1_)] + [('p', skip_)] * g + [('p', r2_), ('d',), ('p', r1_)] + [('p', skip_)] * g + [('p', r2_), ('d',)]
+            h = cs.hist(text_, ops, 'hist-gaps')
+            cache_ = {id(r1_): cs.eval(text_, r1_, 'hist-fresh'), id(r2_): cs.eval(text_, r2_, 'hist-fresh'), id(skip_): cs.eval(text_, skip_, 'hist-fresh')}
+            fresh = [cache_[id(o[1])] if o[0] in ('p', 'q') else None for o in ops]
+            hs.append((h, ops, fresh))
+    # lists of every length around round sizes, attribute values around membership (fractions, the other numeric types), from the second call on
+    for n in ([1, 2, 7, 8, 15, 16, 17, 32, 33, 64, 65] if ctx.quick else [1, 2, 7, 8, 9, 15, 16, 17, 31, 32, 33, 63, 64, 65, 127, 128, 129, 256, 257, 1025]):
+        for text_, vals_ in [('x in [%s]' % ', '.join(str(i) for i in range(1, n + 1)), [F(2.5), F(n + 0.999), F(1.0), F(float(n)), F(n + 1.0), I(n), I(n + 1), F(0.5), F(-0.0), ('i64', n), ('i32', 1), S('1'), F(float('nan'))]),
+                             ('x in [%s]' % ', '.join('%d.5' % i for i in range(1, n + 1)), [F(1.5), F(n + 0.5), I(1), F(1.0), F(n + 1.5), F(1.4999999999999998), I(n), S('1.5')]),
+                             ('x in [%s] or y eq 1' % ', '.join('"v%d"' % i for i in range(1, n + 1)), [S('v1'), S('V%d' % n), S('v%d' % (n + 1)), S('v'), S('v1 '), I(1), ('str', b'v1'), S('v01')])]:
+            ops = []
+            for v in vals_:
+                ops += [('p', obj({'x': v}))]
+            ops += [('d',), ('r',)] + [('p', obj({'x': v})) for v in reversed(vals_)] + [('d',)] + [('p', obj({'x': vals_[0]})), ('p', obj({'x': vals_[1]}))]
+            h = cs.hist(text_, ops, 'hist-lists')
+            fresh = [cs.eval(text_, o[1], 'hist-fresh') if o[0] in ('p', 'q') else None for o in ops]
+            hs.append((h, ops, fresh))
     res = ctx.run(cs)
     ctx.compare([c for c in cs.cases if c.kind == 'hist'], res, ['out'], nontrivial=lambda c, mo: True)
     run_sequences(ctx)
@@ -1548,7 +1600,7 @@ def check_C13(ctx):
     cyc = CaseSet()
     for k_ in range(6):
         cyc.simple('cyclic', str(k_), 'cyclic-object', scenario=k_)
-    cres = ctx.run(cyc, label='cyc', nshards=len(cyc.cases), sides=('impl',), timeout=300)
+    cres = ctx.run(cyc, label='cyc', nshards=len(cyc.cases), sides=('impl',), timeout=300, own_crash_handling=True)
     for c in cyc.cases:
         io = cres.impl.get(c.id)
         if io is None:
@@ -1575,21 +1627,45 @@ def check_C12(ctx):
     fam_leaf_exh(cs, ctx.rng, stride=ctx.n(97, 11))
     fail_compounds(ctx, cs, ctx.n(100, 2000))
     cases = [c for c in cs.cases if len(c.line) < 3000]
-    res = ctx.run(cases, sides=('model', 'impl'))
+    # rules nested deeply on every goroutine at once (a nesting budget shared by the goroutines would run out), attribute values whose
+    # String() evaluates rules itself (a package lock around caller code would never be released)
+    n0_ = len(cs.cases)
+    for i_ in range(32):
+        d_ = 4200
+        leaf_ = 'x eq %d' % (1 + i_ % 2)
+        cs.eval(('(' if i_ % 4 < 2 else 'not (') * d_ + leaf_ + ')' * d_, obj({'x': I(1)}), 'conc-deep')
+    for t_ in ['x eq "abc"', 'x co "b" and k eq 1', 'n.x sw "a" or k eq 1', 'x in ["abc", "q"]']:
+        cs.eval(t_, obj({'x': ('strreent', b'abc'), 'k': I(1), 'n': {'x': ('strreent', b'abc')}}), 'conc-reentrant-stringer')
+    # the deep rules come first: the goroutines start together behind a barrier, so they are all inside their deep rule at the same time
+    deep_cases = [c for c in cs.cases[n0_:] if c.fam == 'conc-deep']
+    cases = [c for c in cs.cases[n0_:] if c.fam != 'conc-deep'] + cases
+    res = ctx.run(cases + deep_cases, sides=('model', 'impl'))
     ctx.compare(cases, res, ['verdict', 'err', 'dbg'])
     inf = os.path.join(ctx.work, 'conc.in')
     with open(inf, 'w') as f:
         for c in cases:
             f.write(c.line + '\n')
-    configs = [(2, 20, 1), (8, 25, 4), (32, 10, 16)] if ctx.quick else \
-              [(g, 8, p) for g in (2, 8, 32) for p in (1, 4, 16)] + [(8, 40, 16), (32, 40, 4), (2, 20, 1)]
+    inf_deep = os.path.join(ctx.work, 'conc-deep.in')
+    with open(inf_deep, 'w') as f:
+        for c in deep_cases:
+            f.write(c.line + '\n')
+    all_cases = cases
+    configs = [(2, 20, 1, inf), (8, 25, 4, inf), (32, 10, 16, inf), (32, 2, 16, inf_deep)] if ctx.quick else \
+              [(g, 8, p, inf) for g in (2, 8, 32) for p in (1, 4, 16)] + [(8, 40, 16, inf), (32, 40, 4, inf), (2, 20, 1, inf), (32, 6, 16, inf_deep), (32, 6, 4, inf_deep), (16, 6, 16, inf_deep)]
     races = 0
     runs = []
-    for (g, r, p) in configs:
+    for (g, r, p, inf) in configs:
+        cases = deep_cases if inf == inf_deep else all_cases
         outf = os.path.join(ctx.work, 'conc.%d.%d.%d.out' % (g, r, p))
         env = dict(os.environ, GORACE='halt_on_error=0 exitcode=66')
-        pr = sp.run([os.path.join(VERIF, 'driver', 'driver-race'), 'conc', inf, outf, str(g), str(r), str(p)],
-                    stdout=sp.PIPE, stderr=sp.PIPE, env=env, timeout=3000)
+        try:
+            pr = sp.run([os.path.join(VERIF, 'driver', 'driver-race'), 'conc', inf, outf, str(g), str(r), str(p)] + (['400'] if inf == inf_deep else []),
+                        stdout=sp.PIPE, stderr=sp.PIPE, env=env, timeout=ctx.n(600, 3000))
+        except sp.TimeoutExpired as te:
+            runs.append({'goroutines': g, 'rounds': r, 'gomaxprocs': p, 'rc': 'timeout', 'race_reports': 0})
+            ctx.violation('the concurrent run with %d goroutines, %d rounds, GOMAXPROCS=%d never finished (%d s): calls that wait for each other; stderr: %s' % (g, r, p, ctx.n(600, 3000), (te.stderr or b'').decode('utf-8', 'replace')[-1500:]), [],
+                          config={'goroutines': g, 'rounds': r, 'gomaxprocs': p, 'cases_file_seed': ctx.seed})
+            continue
         err = pr.stderr.decode('utf-8', 'replace')
         nr = err.count('WARNING: DATA RACE')
         races += nr
@@ -1620,9 +1696,9 @@ CHECKS.update({'C12': check_C12})
 
 # ----------------------------------------------------------------------------
 ATTACHED = {0: '42', 1: 'true', 2: 'null', 3: '[1,"a"]', 4: '{"a":"x","b":1}', 5: '1.5', 6: None, 7: None, 8: None, 9: None,
-            10: '{}', 11: '[1,2]', 12: None, 13: '{"A":2}', 14: '"YWI="', 15: '9223372036854775807', 16: '1e+21', 17: '{}', 18: 'null', 19: '{}', 20: '{}'}
-NERR_KEYS = ['attr_path', 'operation', 'object_path_operand', 'rule_operand', 'err', 'msg', 'a', 'b', 'k<&>', 'K', 'é', '', 'z"q', 'x\ny']
-NERR_TEXTS = ['boom', '', 'read failed: unexpected EOF', 'strconv.ParseInt: parsing "x": invalid syntax', 'Operand not present', 'a "quoted" <text> & more', 'tab\there', 'nl\n', 'é x', 'ctl\x01\x08\x0c\x1f\x7f', 'slash/\\']
+            10: '{}', 11: '[1,2]', 12: None, 13: '{"A":2}', 14: '"YWI="', 15: '9223372036854775807', 16: '1e+21', 17: '{}', 18: 'null', 19: '{}', 20: '{}', 21: '{"a":1}', 22: '{"b":2,"c":"x"}', 23: '{"b":2}'}
+NERR_KEYS = ['ctx', 'ctx', 'attr_path', 'operation', 'object_path_operand', 'rule_operand', 'err', 'msg', 'a', 'b', 'k<&>', 'K', 'é', '', 'z"q', 'x\ny']
+NERR_TEXTS = ['boom', '', 'ratio above 100%', '%s and %d and %v', '100%% sure %!s(MISSING)', 'read failed: unexpected EOF', 'strconv.ParseInt: parsing "x": invalid syntax', 'Operand not present', 'a "quoted" <text> & more', 'tab\there', 'nl\n', 'é x', 'ctl\x01\x08\x0c\x1f\x7f', 'slash/\\']
 
 def check_C19(ctx):
     cs = CaseSet()
@@ -1681,6 +1757,26 @@ def check_C19(ctx):
         ops += ['(error 0)', '(error 0)']
         body = '%s (%s) (%s)' % (hx('boom'), hx('m'), ' '.join(ops))
         cs.simple('nerr', body, 'nerr-many-sets', cause='boom', msgs=['m'], ops=ops)
+    # a later Set replaces the value under a key, whatever the value is (nested ErrVals, maps, lists): no deep merge
+    for depth in (1, 2, 3):
+        for (t1, t2) in [(21, 22), (22, 21), (21, 23), (23, 21), (4, 13), (13, 4), (21, 4), (3, 11), (21, 21), (22, 7), (7, 22)]:
+            for key in ('ctx', 'operands', 'err'):
+                for k in range(depth):
+                    v = lambda t: '(v %d %s)' % (t, 'none' if ATTACHED[t] is None else hx(ATTACHED[t]))
+                    ops = ['(set %d (%s %s))' % (k, hx(key), v(t1)), '(error %d)' % (depth - 1), '(set %d (%s %s))' % (k, hx(key), v(t2)), '(error %d)' % (depth - 1), '(error %d)' % k,
+                           '(set %d (%s %s) (%s %s))' % (k, hx(key), v(t1), hx('other'), v(t2)), '(error %d)' % (depth - 1), '(orig %d)' % k]
+                    msgs = ['m%d' % i for i in range(depth)]
+                    body = '%s (%s) (%s)' % (hx('boom'), ' '.join(hx(m) for m in msgs), ' '.join(ops))
+                    cs.simple('nerr', body, 'nerr-nested-values', cause='boom', msgs=msgs, ops=ops)
+    # the layer's message is data, never a format: '%' in messages, with and without a value that JSON rejects
+    for msg in ['ratio above 100%', '%s', '%d items', '100%% sure', '%!s(MISSING)', '%v: %v', 'a%', '%', '%[1]s']:
+        for bad in (False, True):
+            for depth in (1, 2):
+                msgs = [msg] * depth
+                ops = ['(error %d)' % (depth - 1)] + (['(set 0 (%s (v 7 none)))' % hx('bad')] if bad else ['(set 0 (%s (s %s)))' % (hx('k'), hx('100%'))]) + ['(error %d)' % (depth - 1), '(error 0)', '(orig %d)' % (depth - 1)]
+                for cause in ('boom', '50% done'):
+                    body = '%s (%s) (%s)' % (hx(cause), ' '.join(hx(m) for m in msgs), ' '.join(ops))
+                    cs.simple('nerr', body, 'nerr-percent', cause=cause, msgs=msgs, ops=ops)
     res = ctx.run(cs)
     ctx.compare(cs.cases, res, ['out'], nontrivial=lambda c, mo: True)
     spec_violations(ctx, 'NestedError')
